@@ -6,7 +6,7 @@ artefacts have been copied to /verif/.cache/<key>/.
 import os, sys, hashlib, subprocess, shutil, fcntl, glob, re, time, tempfile
 from common import VERIF, REPO, AnalysisBroken
 
-CACHE = os.path.join(VERIF, '.cache')
+CACHE = os.environ.get('VERIF_CACHE', os.path.join(VERIF, '.cache'))
 GENERATED = {'parse.c', 'parse.h', 'scan.c', 'stage1scan.c', 'stage2scan.c', 'cpp-flex.h', 'c99-flex.h', 'go-flex.h'}
 SRC_EXT = ('.c', '.h', '.l', '.y', '.skl', '.sh', '.am', '.in', '.ac')
 IRFLAGS = ['-O0', '-g', '-fno-discard-value-names', '-S', '-emit-llvm', '-w']
@@ -49,8 +49,10 @@ def _prune(keep):
     try:
         ds = [d for d in glob.glob(os.path.join(CACHE, '*')) if os.path.isdir(d)]
         ds.sort(key=lambda d: os.path.getmtime(d), reverse=True)
-        for d in ds[2:]:
-            if os.path.basename(d) != keep: shutil.rmtree(d, ignore_errors=True)
+        now = time.time()
+        for d in ds[3:]:
+            # never remove an entry another process may still be reading: only entries idle for an hour
+            if os.path.basename(d) != keep and now - os.path.getmtime(d) > 3600: shutil.rmtree(d, ignore_errors=True)
     except Exception:
         pass
 
@@ -73,7 +75,7 @@ def build(repo=REPO):
 
 def _build_in(repo, scratch, art):
     t0 = time.time()
-    rc, out = run(['rsync', '-a', '--exclude', '.git', '--exclude', '/tests', '--exclude', '/doc', '--exclude', '/po',
+    rc, out = run(['rsync', '-a', '--exclude', '.git', '--exclude', '.verifcache', '--exclude', '/tests', '--exclude', '/doc', '--exclude', '/po',
                    '--exclude', '/examples', '--exclude', '*.o', '--exclude', '*.lo', '--exclude', '.libs',
                    repo.rstrip('/') + '/', scratch + '/'])
     if rc != 0: raise AnalysisBroken('rsync of %s failed: %s' % (repo, out[-400:]))
